@@ -19,7 +19,9 @@ from leanio import dec_str
 from main import Result
 
 HEALTHY = ["a.txt", "b.txt", "c dir", "m.html", "z.bin"]
-FAULTS = ["dangling", "fifo", "socket", "vanish", "dotdot..name", "dot.\\bs", "back\\\\slash", ".dangling", ".fifo", "loop", "gone.html", "noperm.html", "dangling.pyg", "vanish.pyg", "loop.zip", "latin1-dangling"]
+FAULTS = ["dangling", "fifo", "socket", "vanish", "dotdot..name", "dot.\\bs", "back\\\\slash", ".dangling", ".fifo", "loop", "gone.html", "noperm.html", "dangling.pyg", "vanish.pyg", "loop.zip", "latin1-dangling",
+          # FIFOs where the server looks for something to read: a link file, a side file, a .cap file (an open would wait for a writer)
+          "dot-fifo", "sidecar-fifo", "cap-fifo"]
 OPEN_FAULTS = ("gone.html", "noperm.html")     # stat succeeds, the open that follows fails (deleted in between / not readable)
 
 
@@ -28,6 +30,16 @@ def plant(tree, d, fault):
     if fault == "dangling":
         os.symlink("nowhere-to-be-found", os.path.join(base, b"dangling"))
         return "dangling"
+    if fault == "dot-fifo":
+        os.mkfifo(os.path.join(base, b".pipe"))
+        return ".pipe"
+    if fault == "sidecar-fifo":
+        os.mkfifo(os.path.join(base, b"b.txt.abstract"))
+        return "b.txt.abstract"
+    if fault == "cap-fifo":
+        os.makedirs(os.path.join(base, b".cap"), exist_ok=True)
+        os.mkfifo(os.path.join(base, b".cap", b"b.txt"))
+        return ".cap"
     if fault == "latin1-dangling":
         # a name that is not UTF-8: it reaches log lines and error texts as lone surrogates
         os.symlink("nowhere-to-be-found", os.path.join(base, b"caf\xe9-dangling.txt"))
@@ -112,7 +124,7 @@ def run(ctx):
                 "through 7 protocol views by the UMN and the plain directory handler. non-trivial = directories with >= 3 healthy entries "
                 "and >= 1 fault, distinct by (faults, view, handler)")
     res.assumptions = ["EACCES on stat is represented by the vanished-member case (same code path: no stat result)",
-                       "a dot-named FIFO is replaced by a dot-named socket (opening a FIFO for reading blocks the process: that is the OS, not the listing logic)"]
+                       "the '.fifo' fault is a dot-named socket; real FIFOs in the places the server reads (link file, side file, .cap file) are the faults dot-fifo, sidecar-fifo, cap-fifo"]
     rng = ctx.rng
     combos = [[f] for f in FAULTS]
     for _ in range(ctx.n(6, 40)):
